@@ -130,10 +130,34 @@ func fillWord(rng *Rng, f *insts.Format, op uint32) uint32 {
 }
 
 type c04env struct {
+	hist  []c04hist // early cases, re-decoded at the end (decoding must not depend on history)
 	r     *Run
 	gcn3  *insts.Disassembler
 	cdna3 *insts.Disassembler
 	perms []*insts.Disassembler
+}
+
+type c04hist struct {
+	arch string
+	buf  []byte
+	out  string
+}
+
+// recheckHistory decodes early cases again after everything else has been decoded: the answer
+// must not depend on what the decoder was asked before.
+func (e *c04env) recheckHistory() {
+	for _, h := range e.hist {
+		d := e.gcn3
+		if h.arch == "cdna3" {
+			d = e.cdna3
+		}
+		e.r.Checked("history")
+		if o, _ := decodeCanon(d, h.buf); o != h.out {
+			e.r.Failf("C04.history-dependence", fmt.Sprintf("c04 dec %s %s", h.arch, hexb(h.buf)),
+				"first decode gave %s; the same decoder instance later gives %s for the same bytes", h.out, o)
+			return
+		}
+	}
 }
 
 func (e *c04env) one(arch string, buf []byte, class string) {
@@ -149,6 +173,9 @@ func (e *c04env) one(arch string, buf []byte, class string) {
 	line := fmt.Sprintf("c04 dec %s %s", arch, hx)
 	out, inst := decodeCanon(d, buf)
 	r.Case(line, out)
+	if len(e.hist) < 4000 {
+		e.hist = append(e.hist, c04hist{arch, append([]byte{}, buf...), out})
+	}
 	r.Count("dec." + class)
 	r.Count("outcome." + strings.SplitN(out, " ", 2)[0])
 	r.Checked("no-fault")
@@ -697,6 +724,8 @@ func runC04(r *Run, rng *Rng, replay string) {
 	}
 	// (v) shipped kernels, complete
 	e.scanKernels(0)
+	// (vi) history independence
+	e.recheckHistory()
 }
 
 func countRowsWithDup(d *insts.Disassembler) int { return len(d.VerifRows()) }
